@@ -625,6 +625,11 @@ func unmapPlaceProperties(mm map[string][]byte, p *Place) error {
 			return err
 		}
 	}
+	if raw, ok := mm["longitude"]; ok {
+		if err = gobDecodeFloat64(&p.Longitude, raw); err != nil {
+			return err
+		}
+	}
 	if raw, ok := mm["radius"]; ok {
 		if err = gobDecodeInt64(&p.Radius, raw); err != nil {
 			return err
